@@ -1,6 +1,8 @@
 package main
 
 import (
+	"sync/atomic"
+	"regexp"
 	"bufio"
 	"encoding/json"
 	"fmt"
@@ -82,9 +84,23 @@ func runWorker(c *common, run scenRunner, setup func() error) error {
 		}
 		w.Flush()
 		fmt.Fprintf(j, "E %d\n", ts.Tid)
+		if atomic.LoadInt32(&retireFlag) != 0 && i+1 < len(lines) {
+			// the scenario left library goroutines behind that go on acting (a reconnection loop that survives Stop):
+			// this process is not a clean place for the next scenario; the master starts a fresh worker for the rest
+			w.CloseNoEnd()
+			fmt.Printf("RETIRE %d\n", ts.Tid)
+			os.Exit(7)
+		}
 	}
 	return w.CloseNoEnd()
 }
+
+var retireFlag int32
+
+// requestRetire asks the worker to end after the current scenario (see runWorker).
+func requestRetire() { atomic.StoreInt32(&retireFlag, 1) }
+
+var retireRe = regexp.MustCompile(`(?m)^RETIRE (\d+)$`)
 
 // runMaster distributes scenarios over worker subprocesses and merges their traces.
 func runMaster(c *common, family string, scens []tidScen, extraArgs []string, perScenTimeout time.Duration) error {
@@ -161,6 +177,20 @@ func runMaster(c *common, family string, scens []tidScen, extraArgs []string, pe
 				}
 				if werr == nil {
 					return
+				}
+				if m := retireRe.FindStringSubmatch(outb.String()); m != nil {
+					// the worker retired itself after scenario m[1]: carry on with the rest in a fresh process
+					t, _ := strconv.Atoi(m[1])
+					idx := -1
+					for i, s := range todo {
+						if s.Tid == t {
+							idx = i
+						}
+					}
+					if idx >= 0 {
+						todo = todo[idx+1:]
+						continue
+					}
 				}
 				// which scenario was running?
 				began, ended := -1, map[int]bool{}
